@@ -31,6 +31,7 @@ type Engine struct {
 	needStrLess bool
 	needVarint  bool
 	needProto   bool
+	needStrID   bool
 	needMapHas  bool
 	needApplyRB bool
 	needUnicode bool
@@ -473,6 +474,9 @@ func (e *Engine) prelude() string {
 	if e.needProto {
 		b.WriteString("(declare-fun fdIsList (Int) Bool)\n(declare-fun fdIsMap (Int) Bool)\n(declare-fun fdMsg (Int) Int)\n(declare-fun valkind (Int Int Int) Int)\n(declare-fun fdOwner (Int) Int)\n")
 		b.WriteString("(assert (forall ((f Int)) (! (and (>= (fdMsg f) 0) (not (and (fdIsList f) (fdIsMap f))) (=> (fdIsMap f) (not (= (fdMsg f) 0)))) :pattern ((fdMsg f)))))\n")
+	}
+	if e.needStrID {
+		fmt.Fprintf(&b, "(declare-fun strid (%s Int Int) Int)\n", sAI)
 	}
 	if e.needMapHas {
 		fmt.Fprintf(&b, "(declare-fun maphas (Int %s Int Int) Bool)\n", sAI)
